@@ -3,12 +3,18 @@ use std::path::Path;
 
 pub mod c01;
 pub mod c02;
+pub mod c07;
+pub mod c09;
+pub mod c16;
 pub mod smoke;
 
 pub fn run(id: &str, tier: Tier) -> i32 {
     match id {
         "C01" => c01::run(tier),
         "C02" => c02::run(tier),
+        "C07" => c07::run(tier),
+        "C09" => c09::run(tier),
+        "C16" => c16::run(tier),
         "SMOKE" => smoke::run(),
         _ => {
             eprintln!("harness error: no check for {id}");
@@ -21,6 +27,9 @@ pub fn replay(id: &str, file: &Path) -> i32 {
     match id {
         "C01" => c01::replay(file),
         "C02" => c02::replay(file),
+        "C07" => c07::replay(file),
+        "C09" => c09::replay(file),
+        "C16" => c16::replay(file),
         _ => {
             eprintln!("harness error: no check for {id}");
             2
